@@ -881,6 +881,8 @@ def make_subst(repo: Repo, v: FuncInfo):
             val = single[e.id]
             if isinstance(val, (ast.Call, ast.Compare, ast.BoolOp, ast.UnaryOp)) and not _is_collection_expr(val):
                 return to_formula(val, subst)
+            if isinstance(val, ast.Attribute) and val.attr == PARENT_FLAG:
+                return to_formula(val, subst)  # is_parent = f.identifier_is_parent_module
         if isinstance(e, ast.Call) and isinstance(e.func, ast.Attribute) and e.func.attr == HIER and e.keywords and len(hp) == 2:
             args: dict[str, ast.expr] = dict(zip(hp, e.args))
             for k in e.keywords:
